@@ -367,6 +367,13 @@ StringDictionaryHHTFC::StringDictionaryHHTFC(IteratorDictString *it,
   delete builderHT;
   tableHU = builderHU->getTable();
   delete builderHU;
+
+  // The coders used for building only know the codewords, but they also
+  // require the decoding tables for querying the dictionary (see load)
+  delete coderHT;
+  coderHT = new StatCoder(tableHT, codewordsHT);
+  delete coderHU;
+  coderHU = new StatCoder(tableHU, codewordsHU);
 }
 
 unsigned long StringDictionaryHHTFC::locate(uchar *str, uint strLen) {
